@@ -15,14 +15,14 @@ def finish(ctx, tasks):
         traces_validated_against_impl=c.get("executions", 0),
         tasks=len(tasks), distinct_outputs=len(ctx.res.sets.get("outputs", ())),
         state_graphs=sorted(ctx.res.sets.get("graphs", ()), key=repr)[:60],
-        capped=c.get("capped_tasks", 0) > 0, unowned_draws=0,
+        capped=c.get("capped_tasks", 0) > 0 or c.get("unowned_draws", 0) > 0, unowned_draws=c.get("unowned_draws", 0),
         slowest_tasks=sorted(ctx.res.sets.get("timing", ()), key=lambda t: -t[0])[:12],
         bounds="gen_dfs default: every execution on all r,c in 1..4 (+4x5,5x4 thorough); kwargs cross product on <=3x3 (+3x4,4x3); "
                "randomized stack and Wilson: complete program-state graph on the listed shapes; percolation: effective-bit families",
     )
     ctx.rule = ("every RNG answer sequence of GENERATORS_MAP[name](shape, **kw) (stateless DFS) or every reachable program state "
                 "(explicit-state BFS for Wilson / randomized stack); distinct = distinct (shape, connection bits, generator)")
-    ctx.exhaustive = c.get("capped_tasks", 0) == 0
+    ctx.exhaustive = c.get("capped_tasks", 0) == 0 and c.get("unowned_draws", 0) == 0
     ctx.assumptions += ["RNG primitives answer within their documented range (NumPy/`random` contract)",
                         "program state at a choice point = locals + instruction offset of all library frames (DESIGN 2.2)"]
 
